@@ -66,9 +66,29 @@ def state_names(d):
     return [p[-1] for p, v in paths(d) if len(p) >= 2 and p[-2] == "States" and isinstance(v, dict)]
 
 
+def rename_state(mach, old_nm, nm):
+    """Rename a state of one (sub) machine and everything in that machine that refers to it."""
+    tgt = mach["States"]
+    tgt[nm] = tgt.pop(old_nm)
+    if mach.get("StartAt") == old_nm:
+        mach["StartAt"] = nm
+    for st in tgt.values():
+        if isinstance(st, dict):
+            for k in ("Next", "Default"):
+                if st.get(k) == old_nm:
+                    st[k] = nm
+            for c in (st.get("Choices") or []) + (st.get("Catch") or []):
+                if isinstance(c, dict) and c.get("Next") == old_nm:
+                    c["Next"] = nm
+
+
+ODD_NAMES = ["a.b", "x[0]", "*", "n.m.o", "$.x", "..", "a b", "it's", "Say \"hi\"", "?(@)", "[*]", "Type", "Result", "States",
+             "é", "0"]
+
+
 def mutate(rng, d):
     d = copy.deepcopy(d)
-    kind = rng.choice(["drop", "drop", "rename-state", "retarget", "retag", "wrong-type", "dup-name", "unreachable",
+    kind = rng.choice(["drop", "drop", "rename-state", "retarget", "retag", "wrong-type", "dup-name", "dup-name", "dup-name", "odd-name", "odd-name", "unreachable",
                        "empty-branches", "swap-end-next"])
     ps = paths(d)
     try:
@@ -101,8 +121,44 @@ def mutate(rng, d):
             if not subs:
                 raise IndexError
             p = rng.choice(subs)
-            nm = rng.choice([n for n in d["States"].keys()])
-            get(d, p)[nm] = {"Type": "Pass", "End": True}
+            if len(subs) >= 2 and rng.random() < 0.6:
+                # a state of one nested machine takes the name of a state of ANOTHER nested machine (sibling branches,
+                # a branch and an iterator elsewhere, ...): the renamed state stays reachable, its references follow
+                q = rng.choice([x for x in subs if x != p])
+                nm = rng.choice(sorted(get(d, q).keys()))
+                tgt = get(d, p)
+                old_nm = rng.choice(sorted(tgt.keys()))
+                if nm not in tgt:
+                    tgt[nm] = tgt.pop(old_nm)
+                    mach = get(d, p[:-1])
+                    if mach.get("StartAt") == old_nm:
+                        mach["StartAt"] = nm
+                    for st in tgt.values():
+                        if isinstance(st, dict):
+                            for k in ("Next", "Default"):
+                                if st.get(k) == old_nm:
+                                    st[k] = nm
+                            for c in (st.get("Choices") or []) + (st.get("Catch") or []):
+                                if isinstance(c, dict) and c.get("Next") == old_nm:
+                                    c["Next"] = nm
+                    kind = "dup-name+sibling"
+            else:
+                nm = rng.choice([n for n in d["States"].keys()])
+                get(d, p)[nm] = {"Type": "Pass", "End": True}
+        elif kind == "odd-name":
+            # legal state names that are awkward for anything that builds queries or keys out of them; still unique and
+            # still reachable, so the machine stays as valid as it was. Sometimes a payload gets a key of that name too.
+            conts = [p for p, v in ps if p and p[-1] == "States" and isinstance(v, dict) and v] + [("States",)]
+            p = rng.choice(conts)
+            mach = get(d, p[:-1]) if len(p) > 1 else d
+            old_nm = rng.choice(sorted(mach["States"].keys()))
+            nm = rng.choice(ODD_NAMES)
+            if nm in state_names(d):
+                raise IndexError
+            rename_state(mach, old_nm, nm)
+            if rng.random() < 0.3:
+                d["States"]["Xtra"] = {"Type": "Pass", "Result": {nm: {"Type": "Pass"}}, "ResultPath": "$.xtra", "Next": d["StartAt"]}
+                d["StartAt"] = "Xtra"
         elif kind == "unreachable":
             d["States"]["Orphan"] = {"Type": "Pass", "End": True}
         elif kind == "empty-branches":
@@ -177,7 +233,7 @@ def run_one(i, extra):
             k2, mutant = mutate(rng, mutant)
             kind += "+" + k2
         functions = sorted(script)
-    probes["mutation:" + kind.split("+")[0]] = 1
+    probes["mutation:" + (kind if kind == "dup-name+sibling" else kind.split("+")[0])] = 1
     problems, crash = validate(mutant)
     if crash:
         findings.append({"property": PROP, "rule": "validator-raised", "witness": crash.split(":")[0],
